@@ -303,7 +303,7 @@ def run_shard(ctx):
         info["sample"] = {"structure": summ, "grid": grid, "api_grid": api_grid, "pI_windows": windows}
         ctx.account(case, v, info)
 
-    ctx.hypothesis_stage("profiles-and-pI", cases(), body, 900 if quick else 9000)
+    ctx.hypothesis_stage("profiles-and-pI", cases(), body, 4000 if quick else 40000)
 
     def hist_body(s):
         case = {"kind": "history", "pdb": s.text, "grid": [0.0, 14.0, 0.5]}
@@ -311,4 +311,4 @@ def run_shard(ctx):
         info["sample"] = {"structure": s.summary(), "history": "average, profile, pI, calculate_pka, profile x2, pI x2"}
         ctx.account(case, v, info)
 
-    ctx.hypothesis_stage("query-histories", gen.structures(max_res=20), hist_body, 300 if quick else 3000)
+    ctx.hypothesis_stage("query-histories", gen.structures(max_res=20), hist_body, 1500 if quick else 12000)
